@@ -44,7 +44,17 @@ def _model_dict(m):
     for d in m.decls():
         try:
             if d.arity() == 0:
-                out[d.name()] = str(m[d])
+                v = m[d]
+                if z3.is_fp_value(v):
+                    if v.isNaN():
+                        out[d.name()] = 'nan'
+                    elif v.isInf():
+                        out[d.name()] = '-inf' if v.isNegative() else 'inf'
+                    else:
+                        fr = z3.simplify(z3.fpToReal(v)).as_fraction()
+                        out[d.name()] = repr(float(fr)) if not (v.isZero() and v.isNegative()) else '-0.0'
+                else:
+                    out[d.name()] = str(v)
             else:
                 out[d.name()] = str(m[d])[:400]
         except Exception:
